@@ -139,6 +139,16 @@ Section Contig.
     replace (map snd sc) with (map D order); [exact Hdesc|].
     unfold order. rewrite map_map. apply map_ext_in. intros oc Hoc. apply HD. exact Hoc.
   Qed.
+
+  (* the occurrences recorded by a scan are the scanned chunks under their keys *)
+  Lemma cb_scan_inv : forall sc,
+    (forall oc, In oc sc -> D (key (snd oc)) = snd oc) ->
+    ib_inv D (fold_left (fun idx oc => ci_add idx (key (snd oc)) (lenN (snd oc)) [fst oc]) sc [])
+           (map (fun oc => (fst oc, key (snd oc))) sc).
+  Proof.
+    intros sc HD. rewrite (cb_fold_add sc [] HD).
+    exact (ib_fold D (map (fun oc => (fst oc, key (snd oc))) sc) [] [] (ib_init D)).
+  Qed.
 End Contig.
 
 (* ================================================================== *)
@@ -233,6 +243,16 @@ Section CloneBytesCorrect.
         + exfalso. pose proof (find_none _ _ Ef c Hc) as Hn. cbv beta in Hn. rewrite Ek, N.eqb_refl in Hn.
           discriminate Hn.
     Qed.
+
+    (* a descriptor's chunk gets that descriptor's key *)
+    Lemma hkey_desc : forall d, In d (a_descs a) -> hkey a (H (D (dkey a d))) = dkey a d.
+    Proof.
+      intros d Hd.
+      assert (E : key_of a (H (D (dkey a d))) = dkey a d).
+      { unfold key_of. rewrite <- (Hck d Hd). reflexivity. }
+      unfold hkey. cbv zeta. rewrite E. pose proof (cb_dkey_lt a d Hd) as Hlt.
+      destruct (N.ltb_spec (dkey a d) (lenN (a_descs a))) as [_|Hge]; [reflexivity|lia].
+    Qed.
   End Keys.
 
   (* ---------- the index of a scanned file ---------- *)
@@ -262,6 +282,44 @@ Section CloneBytesCorrect.
     apply in_flat_map. exists s. split; [exact Hs|]. apply in_map. exact Hoc.
   Qed.
 
+  (* the chunk-content function of a run and the premises of the index-level theorems for it *)
+  Lemma clone_bytes_setup : forall (D : N -> list N) a src payload_of prior inplace seeds,
+    describes D (build_source_index a) src -> desc_keys_ok a ->
+    (forall d, In d (a_descs a) -> unpack H decomp a d (payload_of d) = Ok (D (dkey a d))) ->
+    valid_config (a_cfg a) = true ->
+    (forall d, In d (a_descs a) -> trunc a (ad_checksum d) = trunc a (H (D (dkey a d)))) ->
+    (forall x y, In x (map (fun d => D (dkey a d)) (a_descs a) ++ scanned a prior inplace seeds) ->
+                 In y (map (fun d => D (dkey a d)) (a_descs a) ++ scanned a prior inplace seeds) ->
+                 trunc a (H x) = trunc a (H y) -> x = y) ->
+    let D' := Dx D a (scanned a prior inplace seeds) in
+    describes D' (build_source_index a) src
+    /\ out_ok D' (if inplace then Some (scan_index H a prior) else None) prior
+    /\ sound_feeds D' (flat_map (seed_feeds H a) seeds)
+    /\ (forall d, In d (a_descs a) -> unpack H decomp a d (payload_of d) = Ok (D' (dkey a d)))
+    /\ (forall k, In k (keys (build_source_index a)) -> D' k = D k)
+    /\ (forall c, In c (scanned a prior inplace seeds) -> D' (hkey a (H c)) = c).
+  Proof.
+    intros D a src payload_of prior inplace seeds Hdesc Hkeys Hpay Hv Hck Hinj.
+    set (cs := scanned a prior inplace seeds) in *.
+    intros D'.
+    assert (Hsc : forall c, In c cs -> D' (hkey a (H c)) = c).
+    { intros c Hc. exact (Dx_scanned D a cs Hck Hinj c Hc). }
+    assert (Hkd : forall k, In k (keys (build_source_index a)) -> D' k = D k).
+    { intros k Hk. destruct Hkeys as [_ Hkk].
+      apply Hkk in Hk. apply in_map_iff in Hk. destruct Hk as (d & E & Hd). subst k.
+      apply Dx_desc. exact Hd. }
+    split.
+    { apply (cb_describes_ext D D'); [|exact Hdesc]. intros k Hk. symmetry. apply Hkd. exact Hk. }
+    split.
+    { destruct inplace; [|exact I]. apply scan_out_ok; [exact Hv|]. intros c Hc. apply Hsc.
+      unfold cs, scanned. apply in_or_app. left. exact Hc. }
+    split.
+    { apply seed_feeds_sound. intros c Hc. apply Hsc. unfold cs, scanned. apply in_or_app. right. exact Hc. }
+    split.
+    { intros d Hd. unfold D'. rewrite (Dx_desc D a cs d Hd). apply Hpay. exact Hd. }
+    split; [exact Hkd|exact Hsc].
+  Qed.
+
   Theorem clone_bytes_general : forall (D : N -> list N) a src payload_of prior inplace seeds,
     describes D (build_source_index a) src -> desc_keys_ok a ->
     (forall d, In d (a_descs a) -> unpack H decomp a d (payload_of d) = Ok (D (dkey a d))) ->
@@ -277,23 +335,10 @@ Section CloneBytesCorrect.
       /\ o_err (cr_state r) = None /\ cr_index r = [] /\ takeN (lenN src) (o_file (cr_state r)) = src.
   Proof.
     intros D a src payload_of prior inplace seeds Hdesc Hkeys Hpay Hv Hck Hinj.
-    set (cs := scanned a prior inplace seeds) in *.
-    set (D' := Dx D a cs).
-    assert (Hsc : forall c, In c cs -> D' (hkey a (H c)) = c).
-    { intros c Hc. exact (Dx_scanned D a cs Hck Hinj c Hc). }
-    assert (Hdesc' : describes D' (build_source_index a) src).
-    { apply (cb_describes_ext D D'); [|exact Hdesc]. intros k Hk. destruct Hkeys as [_ Hkk].
-      apply Hkk in Hk. apply in_map_iff in Hk. destruct Hk as (d & E & Hd). subst k.
-      symmetry. apply Dx_desc. exact Hd. }
-    assert (Hout : out_ok D' (if inplace then Some (scan_index H a prior) else None) prior).
-    { destruct inplace; [|exact I]. apply scan_out_ok; [exact Hv|]. intros c Hc. apply Hsc.
-      unfold cs, scanned. apply in_or_app. left. exact Hc. }
-    assert (Hss : sound_feeds D' (flat_map (seed_feeds H a) seeds)).
-    { apply seed_feeds_sound. intros c Hc. apply Hsc. unfold cs, scanned. apply in_or_app. right. exact Hc. }
-    assert (Hpay' : forall d, In d (a_descs a) -> unpack H decomp a d (payload_of d) = Ok (D' (dkey a d))).
-    { intros d Hd. unfold D'. rewrite (Dx_desc D a cs d Hd). apply Hpay. exact Hd. }
+    destruct (clone_bytes_setup D a src payload_of prior inplace seeds Hdesc Hkeys Hpay Hv Hck Hinj)
+      as (Hdesc' & Hout & Hss & Hpay' & _ & _).
     unfold clone_bytes.
-    exact (genuine_payloads_clone H decomp D' a src payload_of prior _ _ Hdesc' Hout Hss Hkeys Hpay').
+    exact (genuine_payloads_clone H decomp _ a src payload_of prior _ _ Hdesc' Hout Hss Hkeys Hpay').
   Qed.
 End CloneBytesCorrect.
 
